@@ -33,6 +33,8 @@ ENTRY = dict(
         clauses={
             "at most one create per address, all schedules, any number of addresses": "theorem (per_address_single_device)",
             "every caller (consumer, user get()) obtains the same object at every time": "theorem (per_address_single_device, single_device, entry_is_stable, same_object_at_every_time)",
+            "the same object through EVERY public way to obtain the device (protocol.data[name], get_nowait, attribute access, a subscribed callback, get / wait_for + read, the consumer's own), at every time":
+                "theorem (sees_the_entry, same_object_over_all_routes over Entry.Route) + correspondence (five user routes x every schedule; data / get_nowait / attribute / subscribed callbacks read after every event)",
             "addresses sharing the lock do not interfere; no object serves two addresses": "theorem (addresses_do_not_interfere)",
             "set-up started once": "theorem (per_address_single_device: setupsFor = createdFor <= 1, = 1 once the address has an entry)",
             "every frame is handled by that object": "theorem (per_address_single_device safety; progress: always_handleable (possibility) AND inevitability: real_moves_bounded (every schedule of N callers has at most 3N state-changing moves) + handled_when_nothing_moves (when none of them can move every frame caller is handled or dropped: no deadlock); final_ok: complete schedules leave no frame unhandled) + correspondence",
